@@ -22,6 +22,8 @@ CHECKS = {
     'C20': ('Transform.tla', 'TLA+ spec of Transform2D/3D setters over the dispatcher (stored value, per-call bag of notifications) with invariants StoredIsReduced / NotifiedValueIsReadBack / OnlyMatchingEvent / OncePerListener; every edge, all short paths and random walks replayed on the real classes', '6 C20'),
     'C08': ('Coroutines.tla', 'TLA+ spec of CoroutineProcessor with the code\'s own structures (deque with sentinel, wait heap on the shared resetting timer) and per-coroutine ghost clocks; TLC checks TimerInvariant, WakeExactlyOnTime, OneStepPerFrame, RelativeOrderKept for all start orders and dt sequences of the instance; replay runs scripted generators on the real processor with exactly representable dt', '6 C08'),
     'C09': ('Coroutines.tla', 'start / kill / restart / state / promise as actions, also issued from inside coroutine bodies; TLC invariants StateCoherent, NoDuplicates, StructuresAgree, ErrorsChangeNothing, ReleasedInTime; replay compares state (processor and promise), promise value, exceptions, execution log and whether the processor still references each generator', '6 C09'),
+    'C13': ('Loop.tla', 'TLA+ spec of SimpleLoop / switch() / SwitchWorld over handles with cached world instances and per-instance gates and queues; every combination of target, clear flags and request site as Frame actions; TLC action properties OutOnceInLeft, InOnceInEntered, FrameAbandoned, LeftWorldMuted, ClearYieldsFresh; replay on the real loop with harness-owned processors, on_update listener and coroutine', '6 C13'),
+    'C14': ('Loop.tla', 'clock readings as model inputs; TLC action properties FirstDtZero, DtIsDifference, LastIsReading, QuitReturnsNormally, OnQuitDeliveredInCurrent across switches, quits, errors and restarts; replay feeds the same integer readings through time_function and compares the dt seen by every site', '6 C14'),
     'C10': ('Dispatcher.tla', 'TLA+ spec with weakly held handlers, DropRef between calls and between two callbacks of one dispatch under every iteration order; replay with real weak references and gc', '6 C10'),
 }
 
